@@ -368,7 +368,7 @@ fn in_memory_ops(r: &Report) {
     // PSET operations with inconsistent configuration
     {
         use crate::props::c09::{build as build9, Proto};
-        let proto = Proto { inputs: vec![(0, true, 0), (1, false, 1)], outs_per_party: vec![1, 1], extra_explicit: true, fee_first: false, rng_stream: 0 };
+        let proto = Proto { inputs: vec![(0, true, 0), (1, false, 1)], outs_per_party: vec![1, 1], extra_explicit: true, issuance: 0, magnitude: 0, nonwit_mask: 0, fee_first: false, rng_stream: 0 };
         let b9 = build9(&proto);
         let muts: Vec<(&str, Box<dyn Fn(&mut Pset)>)> = vec![
             ("as-is", Box::new(|_p| {})),
